@@ -1,3 +1,4 @@
+import re
 """C08 — keys survive serialisation unchanged; secret keys derive the matching public key; malformed keys are rejected."""
 from ops import *
 from norm import fn as fmt_n
@@ -17,7 +18,7 @@ EXPLANATION = (
     "Display for public keys prints expose_key(); KeyText stores bytes verbatim. Does not decide the libraries' validators themselves, "
     "equality of behaviour of a re-parsed key, or DER canonicality for v1.")
 ASSUMPTIONS = ["rustc type checking / MIR construction are correct", "library validators validate what they document", "library parse/serialise pairs in keyrules are inverse on inputs of the stated width"]
-FLOORS = {"R08.1": 30, "R08.1b": 26, "R08.2": 24, "R08.3": 4, "R08.5": 6, "R08.6": 4}
+FLOORS = {"R08.1": 30, "R08.1b": 26, "R08.2": 24, "R08.3": 4, "R08.5": 6, "R08.6": 4, "R08.7": 12}
 
 KINDS = c10.KINDS
 VALIDATORS = {   # a call that must be on the path with its success edge taken
@@ -32,7 +33,57 @@ for be in ("v2", "v4", "v4-sodium", "v3", "v3-aws-lc"):
     VALIDATORS[(be, "PkeSecret")] = VALIDATORS[(be, "Secret")]
 POINT_VALIDITY = ("libsodium_rs::crypto_core::ed25519::is_valid_point", "libsodium_rs::crypto_sign::ed25519_pk_to_curve25519")
 
+def _shape(t):
+    """Structure of a rejection condition with the concrete key type abstracted away: method names, operators and constants."""
+    if not isinstance(t, tuple) or not t:
+        return t
+    if t[0] == "in":
+        return "IN"
+    if t[0] == "ok":
+        return _shape(t[1])
+    if t[0] == "call":
+        last = re.sub(r"<.*>", "", t[1].rsplit("::", 1)[-1])
+        args = tuple(_shape(a) for a in t[2])
+        if last.startswith(("from_", "try_from", "parse")) and all(a in ("IN", "PARSED") or (isinstance(a, tuple) and a and a[0] in ("sl",)) for a in args):
+            return "PARSED"
+        return ("call", last, args)
+    return tuple(_shape(x) for x in t)
+
+def rejection_shapes(w, cn, kind):
+    f = find_impl_fn(w, cn, "::HasKey", "decode", kind)
+    if f is None:
+        return None, None
+    run_ = Run(w, f)
+    out = {}
+    for r in run_.results:
+        for g in r.path.guards:
+            c = g["cond"]
+            if isinstance(c, tuple) and c and c[0] == "discr":
+                continue
+            n = run_.norm.n(c)
+            if isinstance(n, tuple) and n and n[0] == "binop" and n[2] == ("len", ("in", "bytes")) and n[3][0] == "int":
+                continue                # the kind's own length test
+            out[repr(_shape(n))] = fmt_n(n)[:160]
+    return f, out
+
+def run_strictness(ctx):
+    """R08.7: a public-key decoder must not reject on a condition that the secret-key decoder of the same backend does not also
+    apply: otherwise a secret key is accepted whose own public_key() does not survive to_string()/parse()."""
+    w = ctx.world
+    for be, cn in BACKENDS.items():
+        for pub, sec in (("Public", "Secret"), ("PkePublic", "PkeSecret")):
+            fp, sp = rejection_shapes(w, cn, pub)
+            fs, ss = rejection_shapes(w, cn, sec)
+            if sp is None or ss is None:
+                ctx.add("R08.7", f"C08/decoder-strictness/{be}/{pub}", False, "anchor missing")
+                continue
+            extra = [v for k, v in sp.items() if k not in ss]
+            ctx.add("R08.7", f"C08/decoder-strictness/{be}/{pub}", not extra,
+                    f"the {pub} decoder rejects on condition(s) the {sec} decoder does not apply, so a secret key can be accepted whose derived public key does not parse back: {extra}" if extra else "",
+                    site_of(fp), {"public_only": extra, "shared": len(sp) - len(extra)})
+
 def run(ctx):
+    run_strictness(ctx)
     w = ctx.world
     for be, cn in BACKENDS.items():
         for kind in KINDS:
